@@ -439,6 +439,13 @@ func (s *Sim) JudgeViews(b, c int, age string) {
 	for _, name := range names {
 		def := vs.defs[name]
 		all := s.oracleRows(b, c, def)
+		if hasObjectKey(all) {
+			// sg-bucket's two collation entry points (Collate on decoded values, which this oracle uses, and CollateRaw on
+			// JSON text, which rosmar's SQLite collation uses) do not order two JSON objects the same way; both are the
+			// trusted dependency's, so a view that currently emits an object-valued key is not judged (DESIGN §11.3)
+			s.Ctx.Count("view_judgments_skipped_for_object_valued_keys", 1)
+			continue
+		}
 		for qi, q := range s.viewShapes(all, def) {
 			want := applyParams(all, q, def.Reduce)
 			got, err := s.runView(b, c, DDocName, name, q.Params, qi%3 == 2)
@@ -595,4 +602,13 @@ func (s *Sim) ViewRows(b, c int, view string, params map[string]any, useIter boo
 		return nil, err.Error()
 	}
 	return rows, ""
+}
+
+func hasObjectKey(rows []sortRow) bool {
+	for _, r := range rows {
+		if _, isObj := r.key.(map[string]any); isObj {
+			return true
+		}
+	}
+	return false
 }
